@@ -300,7 +300,7 @@ pub(crate) mod verif_c14s {
         assert!(m.bounding_box.top_left == Point::new(pos.x, pos.y - baseline_spec(p, b)));
         assert!(m.bounding_box.size.width == w);
         assert!(style.line_height() == p.ch);
-        kani::cover!(n == 2 && p.spacing > 0);
+        kani::cover!(n == 2 && p.cw > 0);
     }
     /// transparent colours: holds for fonts without character spacing ...
     //@harness prop=C15 kind=bounded tier=quick class=P bound="transparent text/background colours; string \"ab\"; symbolic font metrics (cell <= 64), character spacing 0" fns=src/mono_font/mono_text_style.rs::MonoTextStyle::draw_string;src/mono_font/mono_text_style.rs::MonoTextStyle::measure_string;src/mono_font/mono_text_style.rs::MonoTextStyle::baseline_offset
@@ -371,6 +371,55 @@ pub(crate) mod verif_c14s {
         };
         assert!(t.0.last == expected);
         kani::cover!(expected.is_some());
+    }
+
+    /// Spacing between characters: filled with the background colour if one is set (all four colour
+    /// modes), otherwise untouched; nothing else is painted by a font whose atlas is empty.
+    //@harness prop=C14 kind=bounded tier=quick class=P bound="text \"ab\", symbolic metrics (cell <= 16, spacing <= 3), empty atlas" timeout=900 fns=src/mono_font/mono_text_style.rs::MonoTextStyle::draw_string_binary;src/mono_font/draw_target.rs::MonoFontDrawTarget::fill_solid
+    #[kani::proof]
+    #[kani::unwind(8)]
+    fn c14_spacing_gets_background_only() {
+        let p = any_parts(16);
+        let mapping = |_c: char| 0usize;
+        let f = metrics_only_font(&p, &mapping);
+        let mut style = any_mono_style(&f);
+        style.underline_color = DecorationColor::None;
+        style.strikethrough_color = DecorationColor::None;
+        let pos = any_point(256);
+        let q = any_point(1024);
+        let mut t = ProbeNative::<Gray8>(ProbeState::new(q, any_rect(64), everything()));
+        style.draw_string("ab", pos, Baseline::Top, &mut t).unwrap();
+        let gap = Rectangle::new(pos + Point::new(p.cw as i32, 0), Size::new(p.spacing, p.ch));
+        let expected = if sp::contains(&gap, q) && (style.text_color.is_some() || style.background_color.is_some()) { style.background_color } else { None };
+        assert!(t.0.last == expected);
+        kani::cover!(expected.is_some() && style.text_color.is_none());
+        kani::cover!(expected.is_some() && style.text_color.is_some());
+        kani::cover!(sp::contains(&gap, q) && expected.is_none());
+    }
+
+    /// C02 for text: everything draw_string paints (character cells incl. background, spacing,
+    /// underline, strikethrough) lies inside the box measure_string reports, for every colour /
+    /// decoration combination and symbolic font metrics -- provided the font's strikethrough lies
+    /// inside the character cell (data lemma c14_font_data_* for the built-in fonts).
+    //@harness prop=C02 kind=bounded tier=quick class=P bound="text \"ab\", symbolic metrics (cell <= 16, spacing <= 3, decoration offsets <= 16)" timeout=900 fns=src/mono_font/mono_text_style.rs::MonoTextStyle::measure_string;src/mono_font/mono_text_style.rs::MonoTextStyle::draw_string
+    #[kani::proof]
+    #[kani::unwind(8)]
+    fn c02_text_paints_inside_measured_box() {
+        let p = any_parts(16);
+        kani::assume(p.strikethrough.offset + p.strikethrough.height <= p.ch);
+        let mapping = |_c: char| 0usize;
+        let f = metrics_only_font(&p, &mapping);
+        let style = any_mono_style(&f);
+        // known finding C15-F1 (transparent colours with character spacing: decorations too wide) is excluded here
+        kani::assume(!(style.text_color.is_none() && style.background_color.is_none() && p.spacing > 0));
+        let pos = any_point(256);
+        let b = any_baseline();
+        let m = style.measure_string("ab", pos, b);
+        let mut t = ProbeNative::<Gray8>(ProbeState::new(any_point(1024), any_rect(64), m.bounding_box));
+        style.draw_string("ab", pos, b, &mut t).unwrap();
+        assert!(!t.0.escaped);
+        kani::cover!(t.0.calls >= 3);
+        kani::cover!(p.underline.offset + p.underline.height < p.ch && p.spacing > 0 && style.background_color.is_some());
     }
 
     /// One glyph through the whole pipeline (glyph() -> SubImage -> Image::draw -> MonoFontDrawTarget ->
